@@ -178,7 +178,7 @@ class Controller:
         return options[c]
 
     # ---------------------------------------------------------------- gate handling
-    def _wait_gate_arrival(self, ids, timeout=None):
+    def _wait_gate_arrival(self, ids, timeout=None, capacity=True):
         """Wait until every id in ids is at its gate or has exited; returns the set that is at the gate."""
         deadline = time.monotonic() + (GATE_ARRIVE_TIMEOUT if timeout is None else timeout)
         with self.cv:
@@ -187,8 +187,9 @@ class Controller:
                 if not missing:
                     break
                 # the pool has max_concurrency workers: once that many node functions are inside, nobody else can arrive
-                inside = [i for i in self.entered if i not in self.exited and self.dispatched.get(i) != "main"]
-                if len(inside) >= self.mc:
+                # (counted from the gates, not from the entry events: a node that has just entered reaches its gate at once)
+                inside = {i for i in self.at_gate | self.released if i not in self.exited and self.dispatched.get(i) != "main"}
+                if capacity and len(inside) >= self.mc:
                     break
                 left = deadline - time.monotonic()
                 if left <= 0:
@@ -358,6 +359,10 @@ class Controller:
         others = sorted(settled - set(ids), key=self.ix)
         cand = sorted(settled & set(ids), key=self.ix)
         if not cand and not done0:
+            # before calling it a hang: give the awaited nodes the full time to show up
+            cand = sorted(self._wait_gate_arrival(ids, timeout=HANG_TIMEOUT, capacity=False) & set(ids), key=self.ix)
+            done0 = [i for i in ids if futures[i].done()]
+        if not cand and not done0:
             self.log("hang", k="nothing-to-release", s=[self.ix(i) for i in ids])
             self.release_everything()
             raise HarnessAbort("hang: scheduler waits for nodes that never started")
@@ -398,6 +403,11 @@ class Controller:
                     return
             cand = sorted(settled & set(ids), key=self.ix)
             others = sorted(settled - set(ids), key=self.ix)
+            if not cand and any(i not in self.exited for i in ids):
+                cand = sorted(self._wait_gate_arrival(ids, timeout=HANG_TIMEOUT, capacity=False) & set(ids), key=self.ix)
+                with self.cv:
+                    if tok["abandoned"]:
+                        return
             if not cand:
                 if any(i not in self.exited for i in ids):
                     self.log("hang", k="nothing-to-release", s=[self.ix(i) for i in ids])
@@ -615,6 +625,7 @@ def run_history(cfg, script=(), max_subset=None, max_bg=None):
     wd = threading.Thread(target=watchdog, daemon=True)
     wd.start()
     tawazi.cfg.RUN_DEBUG_NODES = bool(cfg.get("run_debug", False))
+    tawazi.cfg.TAWAZI_PROFILE_ALL_NODES = bool(cfg.get("profile", False))      # profiling must not change what a call does
     try:
         for op in ops:
             ctl.reset_exec()
@@ -661,6 +672,7 @@ def run_history(cfg, script=(), max_subset=None, max_bg=None):
         done.set()
         _verif.sink = None
         tawazi.cfg.RUN_DEBUG_NODES = False
+        tawazi.cfg.TAWAZI_PROFILE_ALL_NODES = False
         ctl.release_everything()
         signal.signal(signal.SIGUSR1, old)
     return {
